@@ -295,6 +295,9 @@ def ref_peak_slice(f, a, lo, hi):
 def nearest_index(f, x):
     """All indices whose distance to x is within a knife-edge of the minimum."""
     f = np.asarray(f, dtype=float)
+    # a limit beyond the grid is nearest to the end sample, however far away it is (inf, 1e300: the float
+    # difference f - x would absorb f and make every sample look equally near)
+    x = min(max(float(x), float(f.min())), float(f.max()))
     d = np.abs(f - x)
     m = d.min()
     tol = 1e-9 * max(abs(x), np.max(np.abs(f)), 1e-300)
